@@ -60,6 +60,13 @@ def wide(n):
     return [(n >> (20 * k)) & 0xFFFFF for k in range(4)]
 
 
+def longtext(s):
+    """very long text values (filler attributes of multi-chunk headers) are logged as length + digest"""
+    if len(s) <= 4096:
+        return s
+    return "L%d:%s" % (len(s), hashlib.sha1(s.encode("latin-1")).hexdigest()[:12])
+
+
 def proj(v):
     """project a number to something TLC can hold (32-bit ints) without losing identity"""
     if v is None:
@@ -494,6 +501,12 @@ class Driver:
     def op_noop(self, a):
         return 0, {}
 
+    def op_load(self, a):
+        """no library call: tells the trace specification the content of a file written by someone else"""
+        for n in a.get("names", []):
+            self.ctx.names.add(n)
+        return 0, {}
+
     def op_mark(self, a):
         """no library call: marks a position in the trace (e.g. the end of the fixture)"""
         return 0, {}
@@ -570,7 +583,7 @@ class Driver:
             e = getattr(L.nc, "ncmpi_get_att_" + ITYPES[it][2])(ncid, v, name, buf.ptr())
         vals = buf.get(range(ln.value))
         if it == "text":
-            out["vals"] = bytes(vals).decode("latin-1")
+            out["vals"] = longtext(bytes(vals).decode("latin-1"))
         else:
             out["vals"] = [proj(x) for x in vals]
         out["guard"] = buf.untouched_outside(range(ln.value))
